@@ -78,11 +78,11 @@ Proof.
   intro H. subst m. rewrite firstn_app, Nat.sub_diag, firstn_all. simpl. apply app_nil_r.
 Qed.
 
-Lemma wrong_content_spec o orc amap : forall D nd aign eign cases,
+Lemma wrong_content_spec o orc amap emap : forall D nd aign eign cases,
   existsb (div3 o orc) D = false ->
   (length cases <= o_maxperm o)%nat ->
   exists aign' eign',
-    wrong_content o orc amap D nd aign eign cases =
+    wrong_content o orc amap emap D nd aign eign cases =
     Some ((nd - length (filter (ign3 o orc) D))%nat, aign', eign',
           firstn (o_maxperm o) (cases ++ map pair_of (filter (fun t => negb (ign3 o orc t)) D))).
 Proof.
@@ -95,7 +95,7 @@ Proof.
     assert (Hi : ign3 o orc (i, a, e) = tri_true (can_ignore o orc a e)) by reflexivity.
     rewrite !Hi. clear Hi.
     destruct (can_ignore o orc a e) eqn:Ec; cbn [tri_true negb]; try discriminate.
-    + destruct (IH (nd - 1)%nat (add_nat (amap i) aign) (add_nat (expected_map i) eign) cases Hd2 Hlen)
+    + destruct (IH (nd - 1)%nat (add_nat (amap i) aign) (add_nat (emap i) eign) cases Hd2 Hlen)
         as [a' [e' Heq]].
       exists a', e'. rewrite Heq. cbn [length].
       replace (nd - 1 - length (filter (ign3 o orc) D))%nat
@@ -200,11 +200,11 @@ Proof.
   assert (Heqb : Nat.eqb (length a) (length e) = true) by (apply Nat.eqb_eq; exact Hlen).
   rewrite Heqb.
   match goal with
-  | |- context [wrong_content o orc ?am ?d ?n [] [] []] =>
+  | |- context [wrong_content o orc ?am ?em ?d ?n [] [] []] =>
     change d with (filter (differs3 o) (triples a e));
     change n with (length (filter (differs3 o) (triples a e)));
     set (D := filter (differs3 o) (triples a e));
-    destruct (wrong_content_spec o orc am D (length D) [] [] []
+    destruct (wrong_content_spec o orc am em D (length D) [] [] []
                 (no_div_triples o orc a e Hlen Hnd) (Nat.le_0_l _)) as [aign [eign Hwc]]
   end.
   rewrite Hwc. clear Hwc. cbn [app].
@@ -253,8 +253,8 @@ Proof.
   rewrite !prep_model.
   assert (Heqb : Nat.eqb (length (prep o A)) (length (prep o E)) = false) by (apply Nat.eqb_neq; exact Hlen).
   rewrite Heqb.
-  match goal with |- context [wrong_number ?a1 ?a2 ?a3 ?a4 ?a5 ?a6 ?a7 ?a8 ?a9 ?a10 ?a11 ?a12 ?a13] =>
-    destruct (wrong_number a1 a2 a3 a4 a5 a6 a7 a8 a9 a10 a11 a12 a13) as [[aign eign]|] end;
+  match goal with |- context [wrong_number ?a1 ?a2 ?a3 ?a4 ?a5 ?a6 ?a7 ?a8 ?a9 ?a10 ?a11 ?a12 ?a13 ?a14] =>
+    destruct (wrong_number a1 a2 a3 a4 a5 a6 a7 a8 a9 a10 a11 a12 a13 a14) as [[aign eign]|] end;
     cbn [r_verdict andb]; [|discriminate].
   assert (Hpos : (0 < Nat.max (length (drop_last_empty A)) (length (drop_last_empty E)))%nat) by lia.
   apply Nat.ltb_lt in Hpos. rewrite Hpos. discriminate.
